@@ -42,21 +42,50 @@ func sameMarkers(a, b []insdc.Marker, coords bool) bool {
 	return true
 }
 
+// frames: what the parent record says about itself besides its bases. None of it changes what a location denotes.
+var frames = []struct {
+	what string
+	set  func(*poly.Sequence)
+}{
+	{"a bare parent", func(*poly.Sequence) {}},
+	{"a parent marked circular", func(s *poly.Sequence) {
+		s.Meta.Locus.Circular, s.Meta.Locus.MoleculeType, s.Meta.Locus.Name = true, "DNA", "verif"
+		s.Meta.Locus.SequenceLength = fmt.Sprint(len(s.Sequence))
+	}},
+	{"a parent marked linear mRNA", func(s *poly.Sequence) {
+		s.Meta.Locus.Linear, s.Meta.Locus.MoleculeType = true, "mRNA"
+	}},
+}
+
+// featureSequence: the feature's sequence under every frame; they must agree (the first is returned).
 func featureSequence(parent string, loc poly.Location) (s string, err error) {
 	defer func() {
 		if r := recover(); r != nil {
 			err = fmt.Errorf("panic: %v", r)
 		}
 	}()
-	seq := poly.Sequence{Sequence: parent}
-	seq.AddFeature(&poly.Feature{Type: "misc_feature", SequenceLocation: loc})
-	return seq.Features[0].GetSequence(), nil
+	for i, fr := range frames {
+		seq := poly.Sequence{Sequence: parent}
+		fr.set(&seq)
+		seq.AddFeature(&poly.Feature{Type: "misc_feature", SequenceLocation: loc})
+		got := seq.Features[0].GetSequence()
+		if i == 0 {
+			s = got
+		} else if got != s {
+			return got, fmt.Errorf("on %s the feature sequence is %q, on %s %q", fr.what, got, frames[0].what, s)
+		}
+	}
+	return s, nil
 }
 
 // minimal record for the public route; the location is wrapped after commas like NCBI does
-func record(parent, loc string) []byte {
+func record(parent, loc string, topology ...string) []byte {
+	topo := "linear  "
+	if len(topology) > 0 {
+		topo = topology[0]
+	}
 	var b strings.Builder
-	fmt.Fprintf(&b, "LOCUS       verif%18d bp    DNA     linear   SYN 01-JAN-2020\nDEFINITION  location test.\nFEATURES             Location/Qualifiers\n", len(parent))
+	fmt.Fprintf(&b, "LOCUS       verif%18d bp    DNA     %s SYN 01-JAN-2020\nDEFINITION  location test.\nFEATURES             Location/Qualifiers\n", len(parent), topo)
 	line := "     misc_feature    "
 	rest := loc
 	for len(rest) > 58 {
@@ -78,6 +107,69 @@ func record(parent, loc string) []byte {
 	}
 	b.WriteString("//\n")
 	return []byte(b.String())
+}
+
+// recordRoute: the location text inside a GenBank record of the given topology, through genbank.Parse and ParseMulti.
+func recordRoute(parent, text, want, topo string) error {
+	var err error
+	var seq poly.Sequence
+	func() {
+		defer func() {
+			if r := recover(); r != nil {
+				err = fmt.Errorf("panic: %v", r)
+			}
+		}()
+		seq = genbank.Parse(record(parent, text, topo))
+	}()
+	if err != nil {
+		return vk.Errf("[%s record] genbank.Parse of a record holding the location %q: %v", strings.TrimSpace(topo), text, err)
+	}
+	if len(seq.Features) != 1 {
+		return vk.Errf("[%s record] genbank.Parse of a record holding the location %q returned %d features", strings.TrimSpace(topo), text, len(seq.Features))
+	}
+	if seq.Features[0].GbkLocationString != text {
+		return vk.Errf("[%s record] genbank.Parse: location text %q read back as %q", strings.TrimSpace(topo), text, seq.Features[0].GbkLocationString)
+	}
+	var fs string
+	func() {
+		defer func() {
+			if r := recover(); r != nil {
+				err = fmt.Errorf("panic: %v", r)
+			}
+		}()
+		fs = seq.Features[0].GetSequence()
+	}()
+	if err != nil {
+		return vk.Errf("[%s record] GetSequence on the parsed feature with location %q: %v", strings.TrimSpace(topo), text, err)
+	}
+	if !strings.EqualFold(fs, want) {
+		return vk.Errf("[%s record] record route: location %q on parent %q: feature sequence %q, INSDC reading %q", strings.TrimSpace(topo), text, parent, fs, want)
+	}
+	// (a'') the same record as the first of two in one file, through the multi-record parser: each feature must
+	// still report the bases of its own record
+	other := strings.Repeat("t", len(parent)+3)
+	var many []poly.Sequence
+	func() {
+		defer func() {
+			if r := recover(); r != nil {
+				err = fmt.Errorf("panic: %v", r)
+			}
+		}()
+		many = genbank.ParseMulti(append(record(parent, text, topo), record(other, fmt.Sprintf("1..%d", len(other)), topo)...))
+		if len(many) == 2 && len(many[0].Features) == 1 {
+			fs = many[0].Features[0].GetSequence()
+		}
+	}()
+	if err != nil {
+		return vk.Errf("[%s record] ParseMulti of two records, the first holding the location %q: %v", strings.TrimSpace(topo), text, err)
+	}
+	if len(many) != 2 || len(many[0].Features) != 1 {
+		return vk.Errf("[%s record] ParseMulti of two records, the first holding the location %q: %d records returned", strings.TrimSpace(topo), text, len(many))
+	}
+	if !strings.EqualFold(fs, want) {
+		return vk.Errf("[%s record] multi-record route: location %q on parent %q (first of two records): feature sequence %q, INSDC reading %q", strings.TrimSpace(topo), text, parent, fs, want)
+	}
+	return nil
 }
 
 func check(c Case) error {
@@ -111,64 +203,12 @@ func check(c Case) error {
 	if !insdc.SameSegments(insdc.StructureSegments(parsed), n.Segments()) {
 		return vk.Errf("location %q parsed from text: stranded spans and partial ends in reading order %+v, written %+v", text, insdc.StructureSegments(parsed), n.Segments())
 	}
-	// (a') the same text inside a record, through the public parser
+	// (a') the same text inside a record (linear, and circular as plasmid files are), through the public parser
 	if c.InRecord {
-		var seq poly.Sequence
-		func() {
-			defer func() {
-				if r := recover(); r != nil {
-					err = fmt.Errorf("panic: %v", r)
-				}
-			}()
-			seq = genbank.Parse(record(parent, text))
-		}()
-		if err != nil {
-			return vk.Errf("genbank.Parse of a record holding the location %q: %v", text, err)
-		}
-		if len(seq.Features) != 1 {
-			return vk.Errf("genbank.Parse of a record holding the location %q returned %d features", text, len(seq.Features))
-		}
-		if seq.Features[0].GbkLocationString != text {
-			return vk.Errf("genbank.Parse: location text %q read back as %q", text, seq.Features[0].GbkLocationString)
-		}
-		var fs string
-		func() {
-			defer func() {
-				if r := recover(); r != nil {
-					err = fmt.Errorf("panic: %v", r)
-				}
-			}()
-			fs = seq.Features[0].GetSequence()
-		}()
-		if err != nil {
-			return vk.Errf("GetSequence on the parsed feature with location %q: %v", text, err)
-		}
-		if !strings.EqualFold(fs, want) {
-			return vk.Errf("record route: location %q on parent %q: feature sequence %q, INSDC reading %q", text, parent, fs, want)
-		}
-		// (a'') the same record as the first of two in one file, through the multi-record parser: each feature must
-		// still report the bases of its own record
-		other := strings.Repeat("t", len(parent)+3)
-		var many []poly.Sequence
-		func() {
-			defer func() {
-				if r := recover(); r != nil {
-					err = fmt.Errorf("panic: %v", r)
-				}
-			}()
-			many = genbank.ParseMulti(append(record(parent, text), record(other, fmt.Sprintf("1..%d", len(other)))...))
-			if len(many) == 2 && len(many[0].Features) == 1 {
-				fs = many[0].Features[0].GetSequence()
+		for _, topo := range []string{"linear  ", "circular"} {
+			if err := recordRoute(parent, text, want, topo); err != nil {
+				return err
 			}
-		}()
-		if err != nil {
-			return vk.Errf("ParseMulti of two records, the first holding the location %q: %v", text, err)
-		}
-		if len(many) != 2 || len(many[0].Features) != 1 {
-			return vk.Errf("ParseMulti of two records, the first holding the location %q: %d records returned", text, len(many))
-		}
-		if !strings.EqualFold(fs, want) {
-			return vk.Errf("multi-record route: location %q on parent %q (first of two records): feature sequence %q, INSDC reading %q", text, parent, fs, want)
 		}
 	}
 	// (b) assembled as a structure
